@@ -228,7 +228,11 @@ def make_shims(world):
         if axis is None:
             vals = sorted(set(a.elems))
             return Arr((len(vals),), vals, a.dtype)
-        raise Unsupported("np.unique with axis on abstract data")
+        if axis == 0 and a.ndim == 2:
+            n = a.shape[1]
+            rows = sorted(set(tuple(a.elems[i * n:(i + 1) * n]) for i in range(a.shape[0])))
+            return Arr((len(rows), n), [e for r in rows for e in r], a.dtype)
+        raise Unsupported("np.unique with this axis on abstract data")
 
     def argsort(x, **k):
         a = as_arr(x)
